@@ -1100,6 +1100,12 @@ func c04RunMgrBatch(r *Run, p *c04Params) {
 		return
 	}
 	r.Count("mgrbatch/accepted")
+	for i := range c.Env.Orders {
+		if c.Env.Orders[i].Sidecar != 0 {
+			r.Count("mgrbatch/with-sidecar-bid")
+			break
+		}
+	}
 	if len(ents) == 0 {
 		return
 	}
@@ -1571,6 +1577,9 @@ func c04Run(r *Run, p *c04Params) {
 	r.Evaluations++
 	r.Count("path/" + p.Path)
 	r.Count(fmt.Sprintf("version/%d", p.Version))
+	if sp.buildErr == "" || strings.Contains(sp.buildErr, "modifications for expired accounts") {
+		c04EmitMgrWT(r, p, sp)
+	}
 	if sp.buildErr != "" {
 		r.Count("build-error/" + p.Path)
 		// Pool refusing to build a spend is only acceptable for the cases
@@ -1613,6 +1622,52 @@ func c04Run(r *Run, p *c04Params) {
 		amount = c04Amount
 	}
 	c04Judge(r, p, p, ck, sp, amount, sp.prevOuts)
+}
+
+var c04Methods = map[string]string{"close": "CloseAccount", "renew": "RenewAccount",
+	"withdraw": "WithdrawAccount", "deposit": "DepositAccount"}
+
+// c04WitnessShape names the witness type of a witness Pool built for an
+// account of the given version, from its shape alone.
+func c04WitnessShape(version uint8, w wire.TxWitness) string {
+	switch {
+	case version == 0 && len(w) == 3 && len(w[0]) == 0:
+		return "expiryWitness"
+	case version == 0 && len(w) == 3:
+		return "multiSigWitness"
+	case version > 0 && len(w) == 1:
+		return "muSig2Taproot"
+	case version > 0 && len(w) == 3:
+		return "expiryTaproot"
+	}
+	return fmt.Sprintf("shape-%d", len(w))
+}
+
+// c04EmitMgrWT compares the witness type, lock time and input sequence a
+// manager method chose (observed on the transaction it built, or its refusal)
+// with the model's tables.
+func c04EmitMgrWT(r *Run, p *c04Params, sp *c04Spend) {
+	method, ok := c04Methods[p.Path]
+	if !ok {
+		return
+	}
+	sk := p.signKeys()
+	st := account.StateOpen
+	if p.StateExpired {
+		st = account.StateExpired
+	}
+	op := fmt.Sprintf("C04 mgrwt %s %d %d %d %d", method, p.Version, st, sk.expiry, p.LockTime)
+	if sp.buildErr != "" {
+		if p.StateExpired && p.Path != "close" {
+			return // refused before the witness type is chosen (state check)
+		}
+		name, _, _ := account.VerifC04DetermineWitnessType(account.Version(p.Version), st, sk.expiry, p.LockTime)
+		r.Emit(op, name+" err")
+	} else {
+		r.Emit(op, fmt.Sprintf("%s %d %d", c04WitnessShape(p.Version, sp.tx.TxIn[sp.idx].Witness),
+			sp.tx.LockTime, sp.tx.TxIn[sp.idx].Sequence))
+	}
+	r.Count("mgrwt/" + method)
 }
 
 // c04Judge runs the real engine on input sp.idx of sp.tx against the chain
@@ -2073,6 +2128,9 @@ func runC04(r *Run) {
 		return
 	}
 	for c := 0; c < r.N; c++ {
+		if len(r.Violations) >= 20 {
+			break // enough failing inputs; do not spend the budget on more
+		}
 		p := c04Gen(r)
 		c04Run(r, p)
 		// classification of the witness Pool built and of a random one
